@@ -118,7 +118,10 @@ Proof.
     + destruct (dt_flush_hasb _ Hq) as (rq & evs & E & F & Hq'). rewrite E.
       destruct (dt_flush_hasb _ Hr) as (rs & evs2 & E2 & F2 & _). rewrite E2.
       destruct (b_adds _ _) as [b done]. eexists; eexists; split; [reflexivity|]. intros v' X; discriminate.
-    + eexists; eexists; split; [reflexivity|]. intros v' X; discriminate.
+    + destruct (negb (is_nil_err e)).
+      * destruct (dt_flush_hasb _ Hq) as (rq & evs & E & F & Hq'). rewrite E.
+        destruct (b_adds _ _) as [b done]. eexists; eexists; split; [reflexivity|]. intros v' X; discriminate.
+      * eexists; eexists; split; [reflexivity|]. intros v' X; discriminate.
 Qed.
 
 Lemma close_upd_ok sid v isreq e pre : ok_stream v ->
@@ -434,7 +437,10 @@ Proof.
     + destruct (dt_flush (s_req v)) as [[rq evs]|]; [|discriminate].
       destruct (dt_flush (s_resp v)) as [[rs evs2]|]; [|discriminate].
       destruct (b_adds _ _) as [b done]. intros E; inversion E; subst. apply tagged_completes.
-    + intros E; inversion E; subst. apply tagged_nil.
+    + destruct (negb (is_nil_err e)).
+      * destruct (dt_flush (s_req v)) as [[rq evs]|]; [|discriminate].
+        destruct (b_adds _ _) as [b done]. intros E; inversion E; subst. apply tagged_completes.
+      * intros E; inversion E; subst. apply tagged_nil.
 Qed.
 
 Lemma close_upd_tagged sid v isreq e pre u acts :
@@ -632,3 +638,197 @@ Proof.
   destruct (stream_independent_gen client s fs' sm_init sm_init _ _ _ _ (conj eq_refl eq_refl) E2 E3) as [_ C2].
   congruence.
 Qed.
+
+(* ---------------------------------------------------------------------------------------- *)
+(* http2RetryCollector                                                                      *)
+(* ---------------------------------------------------------------------------------------- *)
+Definition delivered (n : bytes) (r : rc) : list btrace := filter (fun t => bytes_eqb (t_name t) n) (r_out r).
+
+(* an action that has nothing to do with test name n *)
+Definition quiet (n : bytes) (a : cact) : Prop :=
+  match a with
+  | CNew m => m <> n
+  | CComplete _ t => t_name t <> n
+  | CTimesUp m => m <> n
+  | CCancel => False
+  end.
+
+(* the waiting map is keyed by the trace's own test name, one entry per name *)
+Definition rc_wf (r : rc) : Prop :=
+  Forall (fun e => fst e = t_name (snd e)) (r_wait r) /\ NoDup (map fst (r_wait r)).
+
+Lemma bytes_eqb_neq a b : a <> b -> bytes_eqb a b = false.
+Proof. intros H. destruct (bytes_eqb_spec a b); [contradiction|reflexivity]. Qed.
+
+Lemma w_get_del_same n l : w_get n (w_del n l) = None.
+Proof.
+  induction l as [|[k v] r IH]; simpl; [reflexivity|].
+  destruct (bytes_eqb_spec k n); simpl; [exact IH|].
+  rewrite bytes_eqb_neq by assumption. exact IH.
+Qed.
+
+Lemma w_get_del_other n m l : m <> n -> w_get n (w_del m l) = w_get n l.
+Proof.
+  intros Ne. induction l as [|[k v] r IH]; simpl; [reflexivity|].
+  destruct (bytes_eqb_spec k m) as [->|Nk]; simpl.
+  - rewrite bytes_eqb_neq by assumption. exact IH.
+  - destruct (bytes_eqb k n); [reflexivity|exact IH].
+Qed.
+
+Lemma w_del_in e m l : In e (w_del m l) -> In e l /\ fst e <> m.
+Proof.
+  unfold w_del. rewrite filter_In. intros [I H]. split; [assumption|].
+  destruct (bytes_eqb_spec (fst e) m); [discriminate|assumption].
+Qed.
+
+Lemma w_del_keys_in k m l : In k (map fst (w_del m l)) -> In k (map fst l) /\ k <> m.
+Proof.
+  rewrite !in_map_iff. intros (e & <- & I). apply w_del_in in I. destruct I as [I Ne].
+  split; [exists e; auto|assumption].
+Qed.
+
+Lemma w_del_nodup m l : NoDup (map fst l) -> NoDup (map fst (w_del m l)).
+Proof.
+  induction l as [|[k v] r IH]; simpl; [constructor|].
+  intros ND. inversion ND as [|? ? Nin ND']; subst.
+  destruct (bytes_eqb k m); simpl; [apply IH; assumption|].
+  constructor; [|apply IH; assumption]. intros I. apply w_del_keys_in in I. tauto.
+Qed.
+
+Lemma w_del_forall (P : bytes * btrace -> Prop) m l : Forall P l -> Forall P (w_del m l).
+Proof. apply Forall_filter'. Qed.
+
+Lemma w_get_in n l t : w_get n l = Some t -> In (n, t) l.
+Proof.
+  induction l as [|[k v] r IH]; simpl; [discriminate|].
+  destruct (bytes_eqb_spec k n) as [->|]; [intros E; inversion E; auto|auto].
+Qed.
+
+Lemma rc_step_wf r a : rc_wf r -> rc_wf (rc_step r a).
+Proof.
+  intros [F ND]. destruct a as [n|s t|n|]; simpl.
+  - split; simpl; [apply w_del_forall|apply w_del_nodup]; assumption.
+  - destruct (retryable (t_err t)).
+    + split; simpl.
+      * constructor; [reflexivity|apply w_del_forall; assumption].
+      * constructor; [|apply w_del_nodup; assumption]. intros I. apply w_del_keys_in in I. tauto.
+    + destruct (w_get (t_name t) (r_wait r)); split; assumption.
+  - destruct (w_get n (r_wait r)); [|split; assumption].
+    split; simpl; [apply w_del_forall|apply w_del_nodup]; assumption.
+  - split; constructor.
+Qed.
+
+Lemma rc_run_wf : forall l r, rc_wf r -> rc_wf (rc_run r l).
+Proof. induction l as [|a l IH]; intros r W; simpl; [assumption|]. apply IH, rc_step_wf, W. Qed.
+
+Lemma rc_init_wf : rc_wf rc_init.
+Proof. split; constructor. Qed.
+
+Lemma delivered_snoc n r w t :
+  delivered n (mkRC w (r_out r ++ [t])) = delivered n r ++ (if bytes_eqb (t_name t) n then [t] else []).
+Proof. unfold delivered. simpl. rewrite filter_app. reflexivity. Qed.
+
+Lemma rc_quiet_step r a n : rc_wf r -> quiet n a ->
+  w_get n (r_wait (rc_step r a)) = w_get n (r_wait r) /\ delivered n (rc_step r a) = delivered n r.
+Proof.
+  intros [F _] Q. destruct a as [m|s t|m|]; simpl in *.
+  - split; [apply w_get_del_other; assumption|reflexivity].
+  - destruct (retryable (t_err t)); simpl.
+    + rewrite (bytes_eqb_neq _ _ Q). split; [apply w_get_del_other; assumption|reflexivity].
+    + destruct (w_get (t_name t) (r_wait r)); [auto|].
+      split; [reflexivity|]. rewrite delivered_snoc, (bytes_eqb_neq _ _ Q), app_nil_r. reflexivity.
+  - destruct (w_get m (r_wait r)) as [t|] eqn:G; [|auto].
+    split; [simpl; apply w_get_del_other; assumption|].
+    rewrite delivered_snoc. apply w_get_in in G. rewrite Forall_forall in F. specialize (F _ G). simpl in F.
+    rewrite <- F, (bytes_eqb_neq _ _ Q), app_nil_r. reflexivity.
+  - contradiction.
+Qed.
+
+Lemma rc_quiet_run n : forall l r, rc_wf r -> Forall (quiet n) l ->
+  w_get n (r_wait (rc_run r l)) = w_get n (r_wait r) /\ delivered n (rc_run r l) = delivered n r /\ rc_wf (rc_run r l).
+Proof.
+  induction l as [|a l IH]; intros r W Q; simpl; [auto|].
+  inversion Q as [|? ? Qa Ql]; subst.
+  destruct (rc_quiet_step r a n W Qa) as [G D].
+  destruct (IH (rc_step r a) (rc_step_wf r a W) Ql) as (G' & D' & W').
+  split; [congruence|split; [congruence|assumption]].
+Qed.
+
+Lemma no_key_no_name l n :
+  Forall (fun e : bytes * btrace => fst e = t_name (snd e)) l -> ~ In n (map fst l) ->
+  filter (fun t => bytes_eqb (t_name t) n) (map snd l) = [].
+Proof.
+  induction l as [|[k v] r IH]; simpl; [reflexivity|].
+  intros F Nin. inversion F as [|? ? Fk Fr]; subst. simpl in Fk.
+  rewrite <- Fk. rewrite bytes_eqb_neq by (intros E; apply Nin; left; exact E).
+  apply IH; [assumption|intros I; apply Nin; right; exact I].
+Qed.
+
+Lemma unique_parked l n t :
+  Forall (fun e : bytes * btrace => fst e = t_name (snd e)) l -> NoDup (map fst l) -> w_get n l = Some t ->
+  filter (fun t => bytes_eqb (t_name t) n) (map snd l) = [t].
+Proof.
+  induction l as [|[k v] r IH]; simpl; [discriminate|].
+  intros F ND. inversion F as [|? ? Fk Fr]; inversion ND as [|? ? Nin ND']; subst. simpl in Fk.
+  destruct (bytes_eqb_spec k n) as [E|Ne].
+  - intros G. rewrite <- Fk, E, bytes_eqb_refl. inversion G; subst v. f_equal.
+    apply no_key_no_name; [assumption|rewrite <- E; assumption].
+  - intros G. rewrite <- Fk. rewrite (bytes_eqb_neq _ _ Ne). apply IH; assumption.
+Qed.
+
+Lemma rc_run_app r a b : rc_run r (a ++ b) = rc_run (rc_run r a) b.
+Proof. unfold rc_run. apply fold_left_app. Qed.
+
+(* a refused (or gracefully shut down) attempt followed by a new attempt with the same test name: only the
+   retry's trace is delivered for that name, whatever else happens on the connection in between *)
+Lemma retry_yields_retry_trace_proof : forall r n s1 t1 mid mid2 s2 t2,
+  rc_wf r -> retryable (t_err t1) = true -> t_name t1 = n -> t_name t2 = n -> retryable (t_err t2) = false ->
+  Forall (quiet n) mid -> Forall (quiet n) mid2 ->
+  delivered n (rc_run r (CComplete s1 t1 :: mid ++ CNew n :: mid2 ++ [CComplete s2 t2])) = delivered n r ++ [t2].
+Proof.
+  intros r n s1 t1 mid mid2 s2 t2 W R1 N1 N2 R2 Q1 Q2.
+  change (CComplete s1 t1 :: mid ++ CNew n :: mid2 ++ [CComplete s2 t2])
+    with ([CComplete s1 t1] ++ mid ++ [CNew n] ++ mid2 ++ [CComplete s2 t2]).
+  rewrite !rc_run_app.
+  set (r1 := rc_run r [CComplete s1 t1]).
+  assert (W1 : rc_wf r1) by (apply rc_run_wf; assumption).
+  assert (D1 : delivered n r1 = delivered n r) by (unfold r1; simpl; rewrite R1; reflexivity).
+  destruct (rc_quiet_run n mid r1 W1 Q1) as (_ & D2 & W2).
+  set (r2 := rc_run r1 mid) in *.
+  set (r3 := rc_run r2 [CNew n]).
+  assert (W3 : rc_wf r3) by (apply rc_run_wf; assumption).
+  assert (G3 : w_get n (r_wait r3) = None) by (unfold r3; simpl; apply w_get_del_same).
+  assert (D3 : delivered n r3 = delivered n r2) by reflexivity.
+  destruct (rc_quiet_run n mid2 r3 W3 Q2) as (G4 & D4 & W4).
+  set (r4 := rc_run r3 mid2) in *.
+  simpl. rewrite R2, N2, G4, G3. rewrite delivered_snoc, N2, bytes_eqb_refl. congruence.
+Qed.
+
+(* without a retry the parked trace is delivered exactly once: when its timer fires, or when the
+   connection ends *)
+Lemma unretried_delivered_once_proof : forall r n s1 t1 mid fin,
+  rc_wf r -> retryable (t_err t1) = true -> t_name t1 = n -> Forall (quiet n) mid ->
+  fin = CTimesUp n \/ fin = CCancel ->
+  delivered n (rc_run r (CComplete s1 t1 :: mid ++ [fin])) = delivered n r ++ [t1] /\
+  w_get n (r_wait (rc_run r (CComplete s1 t1 :: mid ++ [fin]))) = None.
+Proof.
+  intros r n s1 t1 mid fin W R1 N1 Q1 Fin.
+  change (CComplete s1 t1 :: mid ++ [fin]) with ([CComplete s1 t1] ++ mid ++ [fin]).
+  rewrite !rc_run_app.
+  set (r1 := rc_run r [CComplete s1 t1]).
+  assert (W1 : rc_wf r1) by (apply rc_run_wf; assumption).
+  assert (D1 : delivered n r1 = delivered n r) by (unfold r1; simpl; rewrite R1; reflexivity).
+  assert (G1 : w_get n (r_wait r1) = Some t1).
+  { unfold r1. simpl. rewrite R1. simpl. rewrite N1, bytes_eqb_refl. reflexivity. }
+  destruct (rc_quiet_run n mid r1 W1 Q1) as (G2 & D2 & W2).
+  set (r2 := rc_run r1 mid) in *.
+  destruct Fin as [->| ->]; simpl.
+  - rewrite G2, G1. split; [|simpl; apply w_get_del_same].
+    rewrite delivered_snoc, N1, bytes_eqb_refl. congruence.
+  - split; [|reflexivity].
+    unfold delivered. simpl. rewrite filter_app. fold (delivered n r2). rewrite D2, D1. f_equal.
+    destruct W2 as [F ND]. rewrite G1 in G2. subst n. apply unique_parked; assumption.
+Qed.
+
+Lemma collector_wf_proof : forall l, rc_wf (rc_run rc_init l).
+Proof. intros l. apply rc_run_wf, rc_init_wf. Qed.
